@@ -1636,3 +1636,13 @@ MUTANTS.append({"id": "C15-constructor-lookup-in-namespace-scope", "prop": "C15"
   "edits": [("src/cppparser/cppIdentifier.cxx",
              "CPPPreprocessor *error_sink) const {\n  CPPScope *scope = get_scope(current_scope, global_scope, error_sink);\n  if (scope == nullptr) {\n    return nullptr;\n  }\n\n  CPPDeclaration *sym;\n  if (!_names.back().has_templ()) {\n    if (_names.size() > 1 && scope->get_struct_type() != nullptr &&\n        scope->get_simple_name() == get_simple_name()) {",
              "CPPPreprocessor *error_sink) const {\n  CPPScope *scope = get_scope(current_scope, global_scope, error_sink);\n  if (scope == nullptr) {\n    return nullptr;\n  }\n\n  CPPDeclaration *sym;\n  if (!_names.back().has_templ()) {\n    if (_names.size() > 1 &&\n        scope->get_simple_name() == get_simple_name()) {")]})
+
+# ---------------------------------------------------------------- R05.10 (F-C05c)
+M("C05-explicit-false-drops-specifiers", "C05", "src/cppparser/cppBison.yxx",
+  "  $$ = $4;\n  CPPExpression::Result result = $2->evaluate();\n  if (result._type == CPPExpression::RT_error) {\n    yywarning(\"explicit() requires a constant expression\", @2);",
+  "  CPPExpression::Result result = $2->evaluate();\n  if (result._type == CPPExpression::RT_error) {\n    yywarning(\"explicit() requires a constant expression\", @2);",
+  expect="R05.10|storage_class|KW_EXPLICIT_LPAREN")
+M("C05-benign-explicit-else-branch", "C05", "src/cppparser/cppBison.yxx",
+  "  $$ = $4;\n  CPPExpression::Result result = $2->evaluate();\n  if (result._type == CPPExpression::RT_error) {\n    yywarning(\"explicit() requires a constant expression\", @2);\n  } else if (result.as_boolean()) {\n    $$ = $4 | (int)CPPInstance::SC_explicit;\n  }",
+  "  CPPExpression::Result result = $2->evaluate();\n  if (result._type == CPPExpression::RT_error) {\n    yywarning(\"explicit() requires a constant expression\", @2);\n    $$ = $4;\n  } else if (result.as_boolean()) {\n    $$ = $4 | (int)CPPInstance::SC_explicit;\n  } else {\n    $$ = $4;\n  }",
+  benign=True)
